@@ -85,7 +85,7 @@ type sbResult struct {
 	execs    map[string]int
 }
 
-func runSendBatch(s sbScript) sbResult {
+func runSendBatch(s sbScript, variant int, compress bool) sbResult {
 	n := len(s.Scr.Srv)
 	tr := &verifsim.Trace{}
 	cl := verifsim.NewCluster(tr)
@@ -94,8 +94,8 @@ func runSendBatch(s sbScript) sbResult {
 	cl.AddServer("s2")
 	cl.CreateTable("t", [][]byte{[]byte("m")}, []string{"s1", "s2"})
 	copts := []Option{RpcQueueSize(10), FlushInterval(time.Millisecond)}
-	if (len(fmt.Sprint(s.Scr.Out))+len(s.Scr.Srv)+len(s.Scr.Own)+s.Scr.Cancel.Round)%2 == 1 {
-		copts = append(copts, CompressionCodec("snappy")) // every other scenario over compressed cellblocks
+	if compress {
+		copts = append(copts, CompressionCodec("snappy"))
 	}
 	c := newSimClient(cl, copts...)
 	for _, k := range []string{"a0", "n0"} { // establish both regions
@@ -186,9 +186,10 @@ func runSendBatch(s sbScript) sbResult {
 			ocancel()
 			cctx = oc
 		}
-		if i%2 == 0 {
-			// every second call reads a row that exists: its result carries cells (in the response's cellblock, after the
-			// results of the calls before it)
+		if variant == 2 || i%2 == variant {
+			// every second call (the even ones, the odd ones, or all of them: it varies with the scenario) reads a row that
+			// exists: its result carries cells (in the response's cellblock, after the results of the calls before it), and
+			// they must still be ITS cells when SendBatch returns, whatever was received on the connection afterwards
 			row := []byte(rowOf(i))
 			cl.PutRow("t", row, []verifsim.KV{{Row: row, Family: []byte("f"), Qualifier: []byte("q"), Timestamp: 1, Type: 4, Value: []byte("stored")}})
 			g, err := hrpc.NewGet(cctx, []byte("t"), row)
@@ -431,18 +432,28 @@ func TestVerifSendBatch(t *testing.T) {
 		stride = len(rest) / limit
 	}
 	off := int(seed) % stride
-	order := append([]int{}, core...)
+	// a core scenario runs twice: plain with every second call a Get of an existing row, and over compressed cellblocks with
+	// every call such a Get; the others alternate
+	type sbRun struct {
+		idx, variant int
+		compress     bool
+	}
+	var order []sbRun
+	for _, idx := range core {
+		order = append(order, sbRun{idx, idx % 2, false}, sbRun{idx, 2, true})
+	}
 	for k := off; k < len(rest); k += stride {
-		order = append(order, rest[k])
+		order = append(order, sbRun{rest[k], rest[k] % 3, (rest[k]/3)%2 == 1})
 	}
 	rep.Extra["core_scenarios"] = len(core)
 	ran := 0
-	for _, idx := range order {
+	for _, run := range order {
+		idx := run.idx
 		s := scripts[idx]
 		var r sbResult
-		verifsim.Bubble(t, func(t *testing.T) { r = runSendBatch(s) })
+		verifsim.Bubble(t, func(t *testing.T) { r = runSendBatch(s, run.variant, run.compress) })
 		ran++
-		desc := fmt.Sprintf("srv=%v out=%v reloc=%v ownCtx=%v cancel=%+v", s.Scr.Srv, s.Scr.Out, s.Scr.Reloc, s.Scr.Own, s.Scr.Cancel)
+		desc := fmt.Sprintf("srv=%v out=%v reloc=%v ownCtx=%v cancel=%+v gets=%d snappy=%v", s.Scr.Srv, s.Scr.Out, s.Scr.Reloc, s.Scr.Own, s.Scr.Cancel, run.variant, run.compress)
 		switch {
 		case s.Hung && r.returned:
 			// the model says "waits for a region that never comes back"; returning would be wrong only if results were invented
@@ -651,6 +662,105 @@ func TestVerifC12Reject(t *testing.T) {
 			time.Sleep(time.Minute)
 			synctest.Wait()
 		})
+	}
+	// the same with a hole in hbase:meta (a region of the table is in transition: no row for it): the calls whose keys fall
+	// into the hole - the first of them is the key EQUAL to the stop key of the region in front of the hole - have no region;
+	// they must not be sent to a neighbour. The batch waits for the region (here: until its context ends); whatever else of
+	// it was sent went to the owner.
+	for hole := 0; hole < 3; hole++ {
+		for v := 0; v < 3; v++ {
+			// (v = 2: nothing known and the batch begins with the key that equals the stop key of the region in front of the
+			// hole - the lookup made for it is the first thing the client learns about the table)
+			warm, first := v == 1, map[int]int{0: 6, 1: 1, 2: 4}[hole]
+			name := fmt.Sprintf("route/hole-in-meta/region=%d/neighbours-known=%v/boundary-key-first=%v", hole, warm, v == 2)
+			verifsim.Bubble(t, func(t *testing.T) {
+				tr := &verifsim.Trace{}
+				cl := verifsim.NewCluster(tr)
+				cl.AddServer("s1")
+				cl.AddServer("s2")
+				regs := cl.CreateTable("t", [][]byte{[]byte("g"), []byte("p")}, []string{"s1", "s2", "s1"})
+				c := newSimClient(cl, RpcQueueSize(5))
+				if warm {
+					for i, k := range []string{"a0", "h0", "q0"} {
+						if i != hole {
+							g, _ := hrpc.NewGet(context.Background(), []byte("t"), []byte(k))
+							c.Get(g)
+						}
+					}
+					synctest.Wait()
+				}
+				cl.Lock()
+				regs[hole].Online = false
+				type sent struct{ region, row, addr string }
+				var wrong []sent
+				cl.Rules = append(cl.Rules, func(_ *verifsim.Cluster, rs *verifsim.RS, sc *verifsim.ServerConn, req *verifsim.Request, rn []byte) *verifsim.Directive {
+					mr, ok := req.Param.(*pb.MultiRequest)
+					if !ok {
+						return nil
+					}
+					for _, ra := range mr.GetRegionAction() {
+						for _, a := range ra.GetAction() {
+							row := a.GetMutation().GetRow()
+							if a.Get != nil {
+								row = a.Get.GetRow()
+							}
+							for _, r := range regs {
+								if string(r.Name) == string(ra.GetRegion().GetValue()) && !r.Contains(row) {
+									wrong = append(wrong, sent{string(r.Name), string(row), rs.Addr})
+								}
+							}
+						}
+					}
+					return nil
+				})
+				cl.Unlock()
+				keys := []string{"f\xff", "g", "g\x00", "o\xff\xff", "p", "p\x00", "a", "zz"}
+				if v == 2 { // ... and it is the only key of the batch that falls into the hole (the others could keep the batch waiting)
+					rot := append(append([]string{}, keys[first:]...), keys[:first]...)
+					keys = rot[:1]
+					for _, k := range rot[1:] {
+						if !regs[hole].Contains([]byte(k)) {
+							keys = append(keys, k)
+						}
+					}
+				}
+				ctx, cancel := context.WithTimeout(context.Background(), 3*time.Second)
+				defer cancel()
+				var batch []hrpc.Call
+				for _, k := range keys {
+					p, _ := hrpc.NewPut(ctx, []byte("t"), []byte(k), map[string]map[string][]byte{"f": {"q": []byte("v")}})
+					batch = append(batch, p)
+				}
+				res, ok := c.SendBatch(ctx, batch)
+				synctest.Wait()
+				rep.Scenarios++
+				rep.Distinct++
+				cl.Lock()
+				for _, w := range wrong {
+					rep.bad("batch-call-misrouted", "%s: the call for key %q was sent to %s addressed to region %q, which does not own it (hbase:meta has no "+
+						"region for that key at the moment)", name, w.row, w.addr, w.region)
+				}
+				for _, e := range cl.Execs {
+					if e.Table == "t" && regs[hole].Contains([]byte(e.Row)) {
+						rep.bad("batch-call-misrouted", "%s: key %q, which no region owns at the moment, was executed at region %q on %s", name, e.Row, e.Region, e.Server)
+					}
+				}
+				cl.Unlock()
+				for i, r := range res {
+					if regs[hole].Contains(batch[i].Key()) && r.Error == nil {
+						rep.bad("batch-call-misrouted", "%s: the call for key %q is reported successful (batch ok=%v) although no region owns the key", name, batch[i].Key(), ok)
+					}
+				}
+				cl.Lock()
+				regs[hole].Online = true
+				cl.Rules = nil
+				cl.Unlock()
+				time.Sleep(time.Minute)
+				c.Close()
+				time.Sleep(time.Minute)
+				synctest.Wait()
+			})
+		}
 	}
 	kinds := []string{"othertable", "duplicate", "skipbatch-get", "scan", "skipbatch-put"}
 	for n := 1; n <= 4; n++ {
